@@ -130,7 +130,8 @@ pub trait NamingContext {
         let function_name = self.apply_naming_convention(name, RenameRule::CamelCase);
 
         // `delete`, `new`, `default`, ... are legal Rust function names but cannot name a
-        // function in a TypeScript module; such wrappers get a trailing underscore
+        // function in a TypeScript module (nor can `invoke` / `types`, which the module
+        // imports); such wrappers get a trailing underscore
         if RESERVED_FUNCTION_NAMES.contains(&function_name.as_str()) {
             format!("{}_", function_name)
         } else {
@@ -201,6 +202,10 @@ const RESERVED_FUNCTION_NAMES: &[&str] = &[
     "while",
     "with",
     "yield",
+    // not reserved words, but bindings every generated commands module imports: a wrapper of
+    // that name would shadow the import it has to call
+    "invoke",
+    "types",
 ];
 
 /// ASCII-lowercase the first character of `name` (serde's camelCase step) without assuming
